@@ -8,8 +8,6 @@ PROPERTIES = {
                       "(no bound), to refine the exact interval set of the property; the invariant is inductive so it covers every operation history.",
         "level_note": "Relative to pyvc's encoding of Python ints/dicts/tuples (dict(sorted(...)), dict(pairs), update/pop/get axioms), z3/cvc5, "
                       "and the triggered view-predicate axiomatisation; removal ranges outside the property's precondition (covering more than one tracked range) are outside the contract.",
-        "functions": [T_ + "reset", T_ + "num_lost_segments", T_ + "add_lost_segment",
-                      T_ + "remove_lost_segment", T_ + "coalesce_lost_segments"],
         "explanation": "Every LostSegmentTracker method is verified against the abstract interval-set view "
                        "(view(x) <=> some range [k, d[k]) contains x) and the representation invariant "
                        "(non-empty, disjoint, ascending): exact union/difference, coalescing keeps the set and "
